@@ -61,13 +61,14 @@ static unsigned c08_byte(unsigned long long seed, unsigned long long k)
  * scale = scale_num/8.  Oracle: every delivered row equals the same row/columns of a full decode with
  * the same settings (first/last column exempt when smooth upsampling is active), skip returns
  * min(n, rows left), crop window as documented. */
+static int c08_quant = 0;                    /* quanthist: one-pass colour quantisation to this many colours, no dithering */
 static int c08_smooth = 0, c08_cut = 1000;   /* smoothhist: block smoothing on, stream cut to c08_cut/1000 of its length */
 static int op_skiphist(toks_t *t)
 {
   int ss = (int)tl(t, 1), w = (int)tl(t, 2), h = (int)tl(t, 3), prog = (int)tl(t, 4), arith = (int)tl(t, 5);
   int snum = (int)tl(t, 6), fancy = (int)tl(t, 7), dct = (int)tl(t, 8), cropx = (int)tl(t, 9), cropw = (int)tl(t, 10);
   unsigned long long seed = (unsigned long long)tll(t, 11);
-  int x, y, i, bad = 0, pass, merged_spare_skip = 0; char why[220] = "";
+  int x, y, i, bad = 0, pass, merged_spare_skip = 0, oc = 3; char why[220] = "";
   unsigned char *rgb = (unsigned char *)malloc((size_t)w * h * 3), *jb = NULL; size_t js = 0;
   unsigned char *full = NULL; int fw = 0, fh = 0;
   tjhandle hc = tj3Init(TJINIT_COMPRESS);
@@ -116,13 +117,17 @@ static int op_skiphist(toks_t *t)
     d.do_fancy_upsampling = fancy; d.dct_method = dct ? JDCT_IFAST : JDCT_ISLOW;
     d.do_block_smoothing = c08_smooth ? TRUE : FALSE;
     d.out_color_space = JCS_RGB;
+    if (c08_quant) {   /* one-pass colour quantisation without dithering (dithering carries state from row to row by design) */
+      d.quantize_colors = TRUE; d.two_pass_quantize = FALSE; d.dither_mode = JDITHER_NONE; d.desired_number_of_colors = c08_quant;
+    }
     jpeg_start_decompress(&d);
+    oc = d.output_components;
     if (pass == 0) {
       long ew = ((long)w * snum + 7) / 8, eh = ((long)h * snum + 7) / 8;
       fw = d.output_width; fh = d.output_height;
       if (fw != ew || fh != eh) { bad = 1; snprintf(why, sizeof(why), "output dimensions %dx%d, expected ceil(%dx%d * %d/8) = %ldx%ld", fw, fh, w, h, snum, ew, eh); }
       full = (unsigned char *)malloc((size_t)fw * fh * 3 + 3);
-      while (d.output_scanline < d.output_height) { JSAMPROW rp = full + (size_t)d.output_scanline * fw * 3; jpeg_read_scanlines(&d, &rp, 1); }
+      while (d.output_scanline < d.output_height) { JSAMPROW rp = full + (size_t)d.output_scanline * fw * oc; jpeg_read_scanlines(&d, &rp, 1); }
       jpeg_finish_decompress(&d);
     } else {
       JDIMENSION xo = 0, cw = fw; int smooth_edge = 0, line = 0;
@@ -162,7 +167,7 @@ static int op_skiphist(toks_t *t)
           unsigned char *blk = (unsigned char *)malloc((size_t)n * cw * 3 + 16); JSAMPROW rps[64]; JDIMENSION got, q; int c0, c1, c;
           if (n > 64) n = 64;
           memset(blk, 0x7E, (size_t)n * cw * 3);
-          for (k = 0; k < n; k++) rps[k] = blk + (size_t)k * cw * 3;
+          for (k = 0; k < n; k++) rps[k] = blk + (size_t)k * cw * oc;
           line = d.output_scanline;
           got = jpeg_read_scanlines(&d, rps, (JDIMENSION)n);
           if (got > (JDIMENSION)n || d.output_scanline != (JDIMENSION)line + got || d.output_scanline > d.output_height) {
@@ -170,7 +175,7 @@ static int op_skiphist(toks_t *t)
           }
           c0 = smooth_edge ? 1 : 0; c1 = smooth_edge ? (int)cw - 1 : (int)cw;
           for (q = 0; q < got && !bad; q++) for (c = c0; c < c1; c++)
-            if (memcmp(rps[q] + c * 3, full + ((size_t)(line + q) * fw + xo + c) * 3, 3)) {
+            if (memcmp(rps[q] + c * oc, full + ((size_t)(line + q) * fw + xo + c) * oc, oc)) {
               bad = 1; snprintf(why, sizeof(why), "line %d column %d (multi-row read, crop %u+%u) differs from the full decode after history prefix of %d calls", line + (int)q, c, xo, cw, i - 12);
               break;
             }
@@ -183,7 +188,7 @@ static int op_skiphist(toks_t *t)
             if (jpeg_read_scanlines(&d, &rp, 1) != 1) { bad = 1; snprintf(why, sizeof(why), "read returned no line at %d", line); break; }
             c0 = smooth_edge ? 1 : 0; c1 = smooth_edge ? (int)cw - 1 : (int)cw;
             for (c = c0; c < c1; c++)
-              if (memcmp(row + c * 3, full + ((size_t)line * fw + xo + c) * 3, 3)) {
+              if (memcmp(row + c * oc, full + ((size_t)line * fw + xo + c) * oc, oc)) {
                 bad = 1; snprintf(why, sizeof(why), "line %d column %d (crop %u+%u) differs from the full decode after history prefix of %d calls", line, c, xo, cw, i - 12);
                 break;
               }
@@ -274,6 +279,17 @@ static int dispatch_c08(toks_t *t)
   if (!strcmp(op, "tjcrop")) return op_tjcrop(t);
   if (!strcmp(op, "skiphist")) return op_skiphist(t);
   if (!strcmp(op, "skipst") && t->n >= 10) return op_skipst(t);
+  if (!strcmp(op, "quanthist") && t->n >= 13) {
+    /* quanthist <colours> <skiphist arguments> : the same histories with one-pass colour quantisation (jquant1.c behind the
+       upsampler, output_components = 1) */
+    toks_t u = *t; int i, r;
+    c08_quant = (int)tl(t, 1);
+    for (i = 1; i + 1 < t->n; i++) u.tok[i] = t->tok[i + 1];
+    u.n = t->n - 1;
+    r = op_skiphist(&u);
+    c08_quant = 0;
+    return r;
+  }
   if (!strcmp(op, "smoothhist") && t->n >= 13) {
     /* smoothhist <cut permille> <skiphist arguments> : a progressive stream cut short, so that block smoothing (jdcoefct.c
        decompress_smooth_data) is what produces the pixels, then the same crop / read / skip history against the full decode */
